@@ -26,25 +26,34 @@
 (*   "BomPerWrite"    each write is encoded on its own by a stateless      *)
 (*                    encoder, so a codec with a signature (utf-16) puts a *)
 (*                    byte-order mark in front of every write              *)
+(*   "AsciiBypass"    a pure-ASCII piece is written as its ASCII bytes,    *)
+(*                    past the codec's encoder: wrong for codecs that      *)
+(*                    rewrite ASCII characters (utf-7 +, hz ~) or keep a   *)
+(*                    shift state (iso2022_jp, hz, utf-7)                  *)
+(* The sinks: text; binary with utf-8, utf-16, latin-1 (u8, u16, l1) and   *)
+(* with the shifting codecs utf-7, hz, iso2022_jp (xs.u7, xs.hz, xs.jp     *)
+(* with their encoder states xs.s7, xs.shz, xs.sjp).                       *)
 (***************************************************************************)
 EXTENDS ConvOps, Json
 
 CONSTANTS MaxNodes,     \* trees of 1..MaxNodes nodes
           Strings,      \* hostile strings (sequences of DocClasses) put into every document-controlled slot
           Kinds,        \* node kinds the build phase may use
-          DevChoices    \* deviation sets to explore (the intended design is {})
+          DevChoices,   \* deviation sets to explore (the intended design is {})
+          ShiftSinks    \* TRUE: the utf-7 / hz / iso2022_jp sinks are carried as well
 
-VARIABLES T, hs, phase, conv, strip, imgw, dev, i, stack, sub, chars, u8, u16, l1, nw, px
-vars == <<T, hs, phase, conv, strip, imgw, dev, i, stack, sub, chars, u8, u16, l1, nw, px>>
+VARIABLES T, hs, phase, conv, strip, imgw, dev, i, stack, sub, chars, u8, u16, l1, xs, nw, px
+vars == <<T, hs, phase, conv, strip, imgw, dev, i, stack, sub, chars, u8, u16, l1, xs, nw, px>>
 cfgv == <<hs, conv, strip, imgw, dev>>
 
+XS0 == [u7 |-> <<>>, hz |-> <<>>, jp |-> <<>>, s7 |-> FALSE, shz |-> FALSE, sjp |-> FALSE]
 Node(k, d, s, f, a) == [k |-> k, d |-> d, s |-> s, f |-> f, a |-> a]
 Blank == <<>>
 
 Init == /\ hs \in Strings
         /\ T = <<Node("page", 0, Blank, Blank, 0)>>
         /\ phase = "build" /\ conv = "none" /\ strip = FALSE /\ imgw = FALSE /\ dev = {}
-        /\ i = 0 /\ stack = <<>> /\ sub = 0 /\ chars = <<>> /\ u8 = <<>> /\ u16 = <<>> /\ l1 = <<>> /\ nw = 0 /\ px = P0
+        /\ i = 0 /\ stack = <<>> /\ sub = 0 /\ chars = <<>> /\ u8 = <<>> /\ u16 = <<>> /\ l1 = <<>> /\ xs = XS0 /\ nw = 0 /\ px = P0
 
 \* ------------------------------------------------------------------ build phase: grow the tree in preorder
 Last == T[Len(T)]
@@ -73,7 +82,7 @@ AGrow == /\ phase = "build"
               /\ MayAdd(k, d)
               /\ \/ k # "anno" /\ T' = Append(T, NewNode(k, d))
                  \/ k = "anno" /\ \E w \in {cSP, cLF} : T' = Append(T, Node(k, d, <<w>>, Blank, 0))
-         /\ UNCHANGED <<hs, phase, conv, strip, imgw, dev, i, stack, sub, chars, u8, u16, l1, nw, px>>
+         /\ UNCHANGED <<hs, phase, conv, strip, imgw, dev, i, stack, sub, chars, u8, u16, l1, xs, nw, px>>
 
 HasImage == \E j \in 1..Len(T) : T[j].k = "image"
 AStart == /\ phase = "build" /\ CanClose
@@ -82,18 +91,27 @@ AStart == /\ phase = "build" /\ CanClose
           /\ strip' \in (IF conv' = "xml" THEN BOOLEAN ELSE {FALSE})
           /\ imgw' \in (IF conv' = "xml" /\ HasImage THEN BOOLEAN ELSE {FALSE})
           /\ sub' = (IF conv' = "xml" THEN 3 ELSE 0)
-          /\ UNCHANGED <<T, hs, stack, chars, u8, u16, l1, nw, px>>
+          /\ UNCHANGED <<T, hs, stack, chars, u8, u16, l1, xs, nw, px>>
 
 \* ------------------------------------------------------------------ sinks
 \* one write(text) call: the text sink receives the characters; each binary sink receives one encode call
 Used(e) == IF conv = "text" /\ "TextSinkUtf8" \in dev THEN kUTF8 ELSE e
 WriteTo(units, e, text) == units \o EncodeCall(text, Used(e), nw = 0, "BomPerWrite" \in dev)
+\* the incremental encoder of a shifting codec; as a deviation, pure-ASCII pieces go past it
+ShiftCall(text, e, sh) ==
+  IF Used(e) # e THEN [u |-> [q \in 1..Len(text) |-> text[q] + 1000 * Used(e)], sh |-> sh]
+  ELSE IF "AsciiBypass" \in dev /\ AllAscii(text) THEN [u |-> [q \in 1..Len(text) |-> text[q] + 1000 * e], sh |-> sh]
+  ELSE EncShift(text, 1, e, sh)
 Write2(text, btext) ==
   /\ chars' = chars \o text
   /\ u8' = WriteTo(u8, kUTF8, btext) /\ u16' = WriteTo(u16, kUTF16, btext) /\ l1' = WriteTo(l1, kLATIN1, btext)
+  /\ IF ShiftSinks
+     THEN LET a == ShiftCall(btext, kUTF7, xs.s7)  b == ShiftCall(btext, kHZ, xs.shz)  c == ShiftCall(btext, kISO2022, xs.sjp) IN
+          xs' = [u7 |-> xs.u7 \o a.u, hz |-> xs.hz \o b.u, jp |-> xs.jp \o c.u, s7 |-> a.sh, shz |-> b.sh, sjp |-> c.sh]
+     ELSE UNCHANGED xs
   /\ nw' = nw + 1
 Write(text) == Write2(text, text)
-NoWrite == UNCHANGED <<chars, u8, u16, l1, nw>>
+NoWrite == UNCHANGED <<chars, u8, u16, l1, xs, nw>>
 
 \* ------------------------------------------------------------------ run phase
 N == Len(T)
@@ -160,7 +178,8 @@ Canon(s) == LET hl == Len(XmlHeader(TRUE)) IN
             IF Len(s) >= hl /\ SubSeq(s, 1, hl) = XmlHeader(TRUE) THEN XmlHeader(FALSE) \o SubSeq(s, hl + 1, Len(s)) ELSE s
 \* decoding a binary sink with the codec it was opened with yields the characters the text sink received
 SinkOK(units, e) == Representable(e, chars) => Canon(Decode(units, e)) = chars
-P_SinkIndependent == Done => SinkOK(u8, kUTF8) /\ SinkOK(u16, kUTF16) /\ SinkOK(l1, kLATIN1)
+P_SinkIndependent == Done => /\ SinkOK(u8, kUTF8) /\ SinkOK(u16, kUTF16) /\ SinkOK(l1, kLATIN1)
+                             /\ (ShiftSinks => SinkOK(xs.u7, kUTF7) /\ SinkOK(xs.hz, kHZ) /\ SinkOK(xs.jp, kISO2022))
 
 \* well-formed on the text sink; on a binary sink the decoded content is the same characters (P_SinkIndependent) behind a
 \* declaration that differs by one well-formed pseudo-attribute, and is parsed as such for the codec with a signature
@@ -180,6 +199,6 @@ StackIsPath == phase = "run" =>
 \* terminal states for the replay
 EmitTerminal ==
   Done => PrintT("@@" \o ToJson([T |-> T, conv |-> conv, strip |-> strip, imgw |-> imgw, dev |-> dev,
-                                   chars |-> chars, u8 |-> u8, u16 |-> u16, l1 |-> l1, nw |-> nw,
+                                   chars |-> chars, u8 |-> u8, u16 |-> u16, l1 |-> l1, u7 |-> xs.u7, hz |-> xs.hz, jp |-> xs.jp, nw |-> nw,
                                    ev |-> IF conv = "xml" /\ dev = {} THEN px.ev ELSE <<>>]))
 =============================================================================
